@@ -29,6 +29,7 @@ with open(os.path.join(HERE, "seeded", "RESULTS.md"), "w") as f:
     f.write("| seed | property | change | checks run against it | first violation reported |\n|---|---|---|---|---|\n")
     for r in rows:
         f.write("| " + " | ".join(x.replace("|", "\\|") for x in r) + " |\n")
-    f.write(f"\n{len(rows)} seeds; detected by the check of their own property: "
-            f"{sum(1 for r in rows if (r[1] + ': DETECTED') in r[3])}.\n")
+    own = sum(1 for r in rows if (r[1] + ": DETECTED") in r[3])
+    anyc = sum(1 for r in rows if "DETECTED" in r[3])
+    f.write(f"\n{len(rows)} seeds; reported by the check of their own property: {own}; reported by at least one check: {anyc}.\n")
 print(len(rows))
